@@ -185,14 +185,17 @@ def sample_threads(pid):
     return out
 
 
-def provably_deadlocked(pid):
-    """True iff every thread is asleep in a futex/epoll_wait/read/ppoll without timeout and nothing moved within 400 ms."""
+def provably_deadlocked(pid, ignore=()):
+    """True iff every thread (except the sanitizer runtime's background threads recorded at start-up) is asleep in a futex/epoll_wait/read
+    without timeout and nothing moved within 400 ms."""
     a = sample_threads(pid)
     time.sleep(0.4)
     b = sample_threads(pid)
     if not a or set(a) != set(b):
         return False
     for t in b:
+        if t in ignore:
+            continue
         state, sc, cs = b[t]
         if state != 'S' or a[t][2] != cs:
             return False
@@ -236,6 +239,7 @@ def run_proc(cmd, env, timeout, tag, logdir, detect_deadlock=False):
         p = subprocess.Popen(cmd, stdout=fo, stderr=fe, env=env, cwd=VERIF, start_new_session=True)
         deadline = t0 + timeout
         next_dl = t0 + 20
+        bg = set()
         while True:
             try:
                 p.wait(timeout=1.0)
@@ -244,7 +248,13 @@ def run_proc(cmd, env, timeout, tag, logdir, detect_deadlock=False):
                 now = time.time()
                 if detect_deadlock and now >= next_dl:
                     next_dl = now + 10
-                    if provably_deadlocked(p.pid) and provably_deadlocked(p.pid):
+                    if not bg:
+                        try:
+                            m = re.search(r'@BGTIDS(.*)', open(so, errors='replace').read(4096))
+                            bg = set(m.group(1).split()) if m else set()
+                        except OSError:
+                            pass
+                    if provably_deadlocked(p.pid, bg) and provably_deadlocked(p.pid, bg):
                         res.deadlock = gdb_stacks(p.pid)
                         try:
                             os.killpg(p.pid, signal.SIGKILL)
@@ -254,7 +264,7 @@ def run_proc(cmd, env, timeout, tag, logdir, detect_deadlock=False):
                         break
                 if now >= deadline:
                     res.timed_out = True
-                    if detect_deadlock and provably_deadlocked(p.pid):
+                    if detect_deadlock and provably_deadlocked(p.pid, bg):
                         res.deadlock = gdb_stacks(p.pid)
                     try:
                         os.killpg(p.pid, signal.SIGKILL)
@@ -280,7 +290,7 @@ def strip_nums(s):
 def lib_frames(text, limit=3):
     """library/harness frames of the first stack in a sanitizer report: function names only"""
     out = []
-    for m in re.finditer(r'#\d+ 0x[0-9a-f]+ in (.+?) (/\S+?):(\d+)', text):
+    for m in re.finditer(r'#\d+ (?:0x[0-9a-f]+ in )?(.+?) (/\S+?):(\d+)', text):
         fn, path = m.group(1), m.group(2)
         if '/repo' in path or REPO in path or '/verif/' in path:
             fn = re.sub(r'\(.*', '', fn)
